@@ -527,6 +527,41 @@ def oracle_c26(ctx, budget_s):
         ctx.case(("C26", "corpus", json.dumps(desc, sort_keys=True)), True)
         if ctx.failures:
             return
+    # Nest whose outer block has a preamble (Transition in its crossing) and its own constraints: the sequence of
+    # groups must be exactly what the outer block allows on its own (its window includes the stretched preamble)
+    A2 = O._sf(0, ["a1", "a2"])
+    trA = O._transition(1, 0, 2)
+    S2 = O._sf(10, ["s1", "s2"])
+    for ct in ({"k": "Pin", "idx": 0, "f": 0, "l": 0}, {"k": "Pin", "idx": 1, "f": 0, "l": 0}, {"k": "Pin", "idx": -1, "f": 0, "l": 0},
+               {"k": "ExactlyK", "n": 3, "f": 0, "l": 0}, {"k": "AtMostKInARow", "n": 1, "f": 0, "l": 1}):
+        if ctx.elapsed() > t_end:
+            break
+        outer = {"factors": [A2, trA], "block": {"k": "cross", "design": [0, 1], "crossing": [0, 1], "rcc": True, "cs": [ct]}}
+        nest = {"factors": [A2, trA, S2], "block": {"k": "nest", "cs": [], "align": "post preamble", "outer": outer["block"],
+                "inner": {"k": "cross", "design": [10], "crossing": [10], "rcc": True, "cs": []}}}
+        cn, co = O.Case(ctx, nest), O.Case(ctx, outer)
+        if not cn.build() or not co.build():
+            continue
+        cn.regs = set()
+        want = co.valid_seqs()
+        try:
+            exps, done = cn.exhaust("IterateSATGen")
+        except (Exception, O.CallTimeout):
+            continue
+        ctx.count("C26.nest-preamble")
+        if want is None or not done:
+            continue
+        ni = 2
+        got = set()
+        for e in exps:
+            sq, _ = D.exp_to_seq(nest, e)
+            got.add(D.seq_key(_project(outer, sq, 0, len(sq[0][1]), ni)))
+        wantk = {D.seq_key(x) for x in want}
+        ctx.case(("C26", "nest-preamble", json.dumps(ct, sort_keys=True)), True)
+        if got != wantk:
+            report(ctx, "nest", cn, "Nest over an outer block with a preamble and the constraint %s: the group sequences are %d, the "
+                   "outer block alone allows %d (%d only in the Nest, %d missing)" % (ct, len(got), len(wantk), len(got - wantk), len(wantk - got)), None, None)
+            return
     while ctx.elapsed() < t_end:
         leaf = O.gen_leaf(g, small=True, want_derived=rng.choice([0, 0, 1]), kinds=["Pin", "ExactlyK"] + O.RUN_KINDS, allow_weights=False)
         b = leaf["block"]
@@ -646,7 +681,7 @@ def oracle_c29(ctx, budget_s):
     mt = {"id": 2, "name": "f2", "window": {"deps": [0, 1], "width": 1, "stride": 1, "start": None, "kind": "within"},
           "levels": [{"name": "same", "w": 1, "table": eq}, {"name": "diff", "w": 1, "table": [1 - x for x in eq]}]}
     pre_cases = []
-    for crossing, trdep in (([2, 3], 0), ([1, 3], 0), ([3], 2)):
+    for crossing, trdep in (([2, 3], 0), ([3, 1], 0), ([1, 3], 0), ([3, 2], 0), ([3], 2)):
         tr = O._transition(3, trdep, 2)
         dsc = {"factors": [col, siz, mt, tr], "block": {"k": "cross", "design": [0, 1, 2, 3], "crossing": crossing, "rcc": True, "cs": []}}
         c = O.Case(ctx, dsc)
